@@ -1290,6 +1290,13 @@ def expand_module(tree: ast.Module, modname: str) -> Tuple[int, List[str]]:
     ex = Expander(tree, modname, known)
     n = ex.run() + len(ud)
     ex.sites = ud + ex.sites
+    sr = scalar_replace_results(tree, modname) if n else []
+    ex.sites = ex.sites + sr
+    if n:
+        for d_ in changed_functions(tree, modname):
+            d_.body = fold_constant_tests(d_.body) or [ast.Pass()]
+            for b_ in d_.body:
+                ast.fix_missing_locations(b_)
     cs = collapse_container_subclasses(tree, known, ex) if n else []
     ea = eafp_lookups(tree, modname)
     fl = single_use_flags(tree, modname)
@@ -2473,4 +2480,248 @@ def undo_decorators(tree: ast.Module, known: Set[str]) -> List[str]:
         if isinstance(st, ast.ClassDef):
             process(st.body, st.name)
     process(tree.body, None)
+    return out
+
+
+# ======================================================================================================================
+# Helpers that live in a module the rules never saw (`from .failed_message import is_reportable, build_failed_message`,
+# `from .defhash import definition_text`): their definitions - and what they need from that module - are analysed as if
+# written in the importing module, where the helper expansion then writes them in place.  Exact: names are bound to the same
+# objects; only definitions of modules that did not exist in the pinned tree are copied.
+# ======================================================================================================================
+def pull_in_new_modules(trees: Dict[str, ast.Module]) -> List[str]:
+    kf = known_functions()
+    if not kf:
+        return []
+    new_mods = {m for m in trees if m not in kf}
+    if not new_mods:
+        return []
+    out: List[str] = []
+    tops: Dict[str, Dict[str, ast.stmt]] = {}
+    for m in new_mods:
+        d: Dict[str, ast.stmt] = {}
+        for st in trees[m].body:
+            if isinstance(st, (ast.FunctionDef, ast.ClassDef)):
+                d[st.name] = st
+            elif isinstance(st, ast.Assign) and len(st.targets) == 1 and isinstance(st.targets[0], ast.Name):
+                d[st.targets[0].id] = st
+            elif isinstance(st, ast.AnnAssign) and isinstance(st.target, ast.Name) and st.value is not None:
+                d[st.target.id] = st
+        tops[m] = d
+    for mod, t in trees.items():
+        if mod in new_mods:
+            continue
+        have = {st.name for st in t.body if isinstance(st, (ast.FunctionDef, ast.ClassDef))} | \
+               {x.id for st in t.body if isinstance(st, (ast.Assign, ast.AnnAssign)) for x in ([st.targets[0]] if isinstance(st, ast.Assign) else [st.target]) if isinstance(x, ast.Name)}
+        # `from . import admission` ... `admission.check_identity(...)`: the qualified references become plain names first
+        for st in list(t.body):
+            if isinstance(st, ast.ImportFrom):
+                base = mod.split(".")
+                pkg = ".".join(base[: len(base) - st.level] + ([st.module] if st.module else [])) if st.level else (st.module or "")
+                for al in list(st.names):
+                    src = f"{pkg}.{al.name}" if pkg else al.name
+                    if src in new_mods and al.asname in (None, al.name):
+                        local = al.asname or al.name
+                        used = sorted({n.attr for n in ast.walk(t) if isinstance(n, ast.Attribute) and isinstance(n.value, ast.Name) and n.value.id == local and n.attr in tops[src]})
+                        other = [n for n in ast.walk(t) if isinstance(n, ast.Name) and n.id == local and not isinstance(getattr(n, "ctx", None), ast.Store)]
+                        attr_uses = [n for n in ast.walk(t) if isinstance(n, ast.Attribute) and isinstance(n.value, ast.Name) and n.value.id == local]
+                        if not used or len(other) != len(attr_uses) or any(n.attr not in tops[src] for n in attr_uses) or any(u in have for u in used):
+                            continue
+
+                        class Q(ast.NodeTransformer):
+                            def visit_Attribute(self_, n):
+                                self_.generic_visit(n)
+                                if isinstance(n.value, ast.Name) and n.value.id == local:
+                                    return ast.copy_location(ast.Name(id=n.attr, ctx=n.ctx), n)
+                                return n
+
+                        Q().visit(t)
+                        st.names.remove(al)
+                        imp = ast.copy_location(ast.ImportFrom(module=(st.module + "." if st.module else "") + al.name, names=[ast.alias(name=u, asname=None) for u in used], level=st.level), st)
+                        t.body.insert(t.body.index(st) + 1, imp)
+                        if not st.names:
+                            t.body.remove(st)
+        for st in list(t.body):
+            if not isinstance(st, ast.ImportFrom):
+                continue
+            base = mod.split(".")
+            if st.level:
+                src = ".".join(base[: len(base) - st.level] + ([st.module] if st.module else []))
+            else:
+                src = st.module or ""
+            if src not in new_mods:
+                continue
+            wanted = [al.name for al in st.names if al.asname in (None, al.name) and al.name in tops[src]]
+            if not wanted:
+                continue
+            # transitive closure inside the new module
+            todo, take = list(wanted), []
+            while todo:
+                nm = todo.pop()
+                if nm in take or nm in have:
+                    continue
+                take.append(nm)
+                for x in ast.walk(tops[src][nm]):
+                    if isinstance(x, ast.Name) and x.id in tops[src] and x.id not in take:
+                        todo.append(x.id)
+            order = [nm for nm in tops[src] if nm in take]
+            idx = t.body.index(st)
+            for k, nm in enumerate(order):
+                t.body.insert(idx + 1 + k, copy.deepcopy(tops[src][nm]))
+                have.add(nm)
+            st.names = [al for al in st.names if al.name not in take]
+            if not st.names:
+                t.body.remove(st)
+            out.append(f"{mod} <- {src}: {', '.join(order)}")
+    return out
+
+
+def fold_constant_tests(stmts: List[ast.stmt]) -> List[ast.stmt]:
+    """`if True:` / `if not False:` / `a if True else b` left behind by substituting constant arguments into an expanded helper:
+    the branch that cannot run is dropped (nothing else is touched)"""
+
+    def const_truth(t):
+        if isinstance(t, ast.Constant):
+            return bool(t.value)
+        if isinstance(t, ast.UnaryOp) and isinstance(t.op, ast.Not):
+            v = const_truth(t.operand)
+            return None if v is None else (not v)
+        if isinstance(t, ast.Compare) and len(t.ops) == 1 and isinstance(t.left, ast.Constant) and isinstance(t.comparators[0], ast.Constant) and isinstance(t.ops[0], (ast.Is, ast.IsNot, ast.Eq, ast.NotEq)):
+            a, b = t.left.value, t.comparators[0].value
+            if isinstance(t.ops[0], ast.Is):
+                return a is b if (a is None or b is None or isinstance(a, bool) or isinstance(b, bool)) else None
+            if isinstance(t.ops[0], ast.IsNot):
+                return a is not b if (a is None or b is None or isinstance(a, bool) or isinstance(b, bool)) else None
+            return (a == b) if isinstance(t.ops[0], ast.Eq) else (a != b)
+        return None
+
+    class E(ast.NodeTransformer):
+        def visit_IfExp(self, n):
+            self.generic_visit(n)
+            v = const_truth(n.test)
+            if v is None:
+                return n
+            return n.body if v else n.orelse
+
+        def visit_FunctionDef(self, n):
+            return n
+
+        visit_AsyncFunctionDef = visit_ClassDef = visit_Lambda = visit_FunctionDef
+
+    out: List[ast.stmt] = []
+    for s in stmts:
+        for fld in ("body", "orelse", "finalbody"):
+            v = getattr(s, fld, None)
+            if isinstance(v, list) and v and isinstance(v[0], ast.stmt) and not isinstance(s, (ast.FunctionDef, ast.AsyncFunctionDef, ast.ClassDef)):
+                setattr(s, fld, fold_constant_tests(v) or ([ast.Pass()] if fld == "body" else []))
+        if isinstance(s, ast.Try):
+            for h in s.handlers:
+                h.body = fold_constant_tests(h.body) or [ast.Pass()]
+        if not isinstance(s, (ast.FunctionDef, ast.AsyncFunctionDef, ast.ClassDef)):
+            # expressions of this statement only (nested blocks were handled above)
+            for fld, val in list(ast.iter_fields(s)):
+                if isinstance(val, ast.expr):
+                    setattr(s, fld, E().visit(val))
+                elif isinstance(val, list) and val and isinstance(val[0], ast.expr):
+                    setattr(s, fld, [E().visit(x) for x in val])
+        if isinstance(s, ast.If):
+            v = const_truth(s.test)
+            if v is not None:
+                out.extend(s.body if v else s.orelse)
+                continue
+        out.append(s)
+    return out
+
+
+# ======================================================================================================================
+# Small result objects (`verdict = Verdict(False, "id in use")` ... `if not verdict.admitted:`): a local that is only ever
+# bound to constructor calls of a value class the rules never saw (NamedTuple / dataclass with plain fields) and only ever
+# read field by field is replaced by one local per field.  Exact (the object never escapes).
+# ======================================================================================================================
+def scalar_replace_results(tree: ast.Module, modname: str) -> List[str]:
+    if not _SIGS:
+        return []
+    kf = known_functions().get(modname, set())
+    vclasses: Dict[str, List[Tuple[str, Optional[ast.expr]]]] = {}
+    for st in tree.body:
+        if isinstance(st, ast.ClassDef) and not any(q == st.name or q.startswith(st.name + ".") for q in kf):
+            is_nt = any(ast.unparse(b).split(".")[-1] == "NamedTuple" for b in st.bases)
+            is_dc = any(ast.unparse(d).split("(")[0].split(".")[-1] == "dataclass" for d in st.decorator_list)
+            if not (is_nt or is_dc) or any(isinstance(x, ast.FunctionDef) and x.name in ("__init__", "__new__", "__post_init__") for x in st.body):
+                continue
+            fields = [(x.target.id, x.value) for x in st.body if isinstance(x, ast.AnnAssign) and isinstance(x.target, ast.Name)]
+            if fields and all(v is None or isinstance(v, ast.Constant) for _, v in fields):
+                vclasses[st.name] = fields
+    if not vclasses:
+        return []
+    out: List[str] = []
+    for d in changed_functions(tree, modname):
+        stores: Dict[str, List[ast.Assign]] = {}
+        bad: Set[str] = set()
+        for n in ast.walk(d):
+            if isinstance(n, ast.Assign) and len(n.targets) == 1 and isinstance(n.targets[0], ast.Name):
+                v = n.value
+                if isinstance(v, ast.Call) and isinstance(v.func, ast.Name) and v.func.id in vclasses and not any(isinstance(a, ast.Starred) for a in v.args) and all(k.arg for k in v.keywords):
+                    stores.setdefault(n.targets[0].id, []).append(n)
+                else:
+                    bad.add(n.targets[0].id)
+            elif isinstance(n, (ast.AugAssign, ast.AnnAssign, ast.For, ast.NamedExpr, ast.withitem)):
+                t = getattr(n, "target", None) or getattr(n, "optional_vars", None)
+                for x in (ast.walk(t) if t is not None else []):
+                    if isinstance(x, ast.Name):
+                        bad.add(x.id)
+            elif isinstance(n, ast.arg):
+                bad.add(n.arg)
+        cands = {k: v for k, v in stores.items() if k not in bad and len({s_.value.func.id for s_ in v}) == 1}
+        for var, sts in cands.items():
+            cls = sts[0].value.func.id
+            fields = vclasses[cls]
+            fnames = [f for f, _ in fields]
+            # every load is `var.<field>`
+            loads = [n for n in ast.walk(d) if isinstance(n, ast.Name) and n.id == var and isinstance(n.ctx, ast.Load)]
+            attr_loads = [n for n in ast.walk(d) if isinstance(n, ast.Attribute) and isinstance(n.value, ast.Name) and n.value.id == var and isinstance(n.ctx, ast.Load) and n.attr in fnames]
+            if len(loads) != len(attr_loads) or not loads:
+                continue
+            ok = True
+            repl: Dict[int, List[ast.stmt]] = {}
+            for st in sts:
+                vals: Dict[str, ast.expr] = {}
+                for (fname, dflt), a in zip(fields, st.value.args):
+                    vals[fname] = a
+                for k in st.value.keywords:
+                    vals[k.arg] = k.value
+                for fname, dflt in fields:
+                    if fname not in vals:
+                        if dflt is None:
+                            ok = False
+                        else:
+                            vals[fname] = copy.deepcopy(dflt)
+                if not ok or set(vals) - set(fnames):
+                    ok = False
+                    break
+                repl[id(st)] = [ast.copy_location(ast.Assign(targets=[ast.Name(id=f"{var}__{fname}", ctx=ast.Store())], value=vals[fname]), st) for fname in fnames]
+            if not ok:
+                continue
+
+            class S(ast.NodeTransformer):
+                def visit_Assign(self_, n):
+                    if id(n) in repl:
+                        return repl[id(n)]
+                    self_.generic_visit(n)
+                    return n
+
+                def visit_Attribute(self_, n):
+                    self_.generic_visit(n)
+                    if isinstance(n.value, ast.Name) and n.value.id == var and isinstance(n.ctx, ast.Load) and n.attr in fnames:
+                        return ast.copy_location(ast.Name(id=f"{var}__{n.attr}", ctx=ast.Load()), n)
+                    return n
+
+            nb = []
+            for b in d.body:
+                r = S().visit(b)
+                nb.extend(r if isinstance(r, list) else [r])
+            d.body = nb
+            for b in d.body:
+                ast.fix_missing_locations(b)
+            out.append(f"{d.name}: {var} ({cls}) replaced by {', '.join(var + '__' + f for f in fnames)}")
     return out
